@@ -13,7 +13,7 @@ CONSTANTS Dev
 Traces == JsonDeserialize(IOEnv.TRACE_FILE)
 NT == Len(Traces)
 VARIABLE ti
-SchOf(T) == [C |-> T.C, L0 |-> T.L0, H |-> T.H, wins |-> T.wins, groups |-> T.groups,
+SchOf(T) == [dev |-> Dev, C |-> T.C, L0 |-> T.L0, H |-> T.H, wins |-> T.wins, groups |-> T.groups,
              jobs |-> T.jobs, probes |-> T.probes, holds |-> T.holds]
 K == INSTANCE FaultsKeys WITH sch <- SchOf(Traces[ti]), m <- <<>>
 
